@@ -37,6 +37,7 @@ import (
 	ffsConsts "github.com/9elements/converged-security-suite/v2/pkg/uefi/ffs/consts"
 	"github.com/9elements/converged-security-suite/v2/testdata/firmware"
 	"github.com/google/go-tpm/legacy/tpm2"
+	pkgbytes "github.com/linuxboot/fiano/pkg/bytes"
 	"github.com/linuxboot/fiano/pkg/guid"
 	"verifharness/gal"
 )
@@ -83,6 +84,39 @@ func mkState(reg uint64, withRegs bool, flow types.Flow) (*tpm.TPM, *bootengine.
 	}
 	s.SetFlow(flow)
 	return tpmInstance, bootengine.NewBootProcess(s)
+}
+
+// refsSource is a data source with SEVERAL references, as real measurements have them (PCR0_DATA: registers +
+// hard-coded bytes + image ranges): each item is a hard-coded value (raw != nil) or ranges of the BIOS image
+// in physical addresses.
+type refSpec struct {
+	raw    []byte
+	ranges pkgbytes.Ranges
+}
+
+type refsSource []refSpec
+
+func (rs refsSource) Data(_ context.Context, s *types.State) (*types.Data, error) {
+	img, err := biosimage.Get(s)
+	if err != nil {
+		return nil, err
+	}
+	var refs types.References
+	for _, r := range rs {
+		if r.raw != nil {
+			refs = append(refs, *types.NewReference(types.RawBytes(r.raw)))
+			continue
+		}
+		refs = append(refs, types.Reference{Artifact: img, MappedRanges: types.MappedRanges{
+			AddressMapper: biosimage.PhysMemMapper{}, Ranges: append(pkgbytes.Ranges{}, r.ranges...)}})
+	}
+	return types.NewData(refs), nil
+}
+
+func (rs refsSource) String() string { return fmt.Sprintf("refsSource(%d references)", len(rs)) }
+
+func imgRef(off, length uint64) refSpec {
+	return refSpec{ranges: pkgbytes.Ranges{{Offset: off, Length: length}}}
 }
 
 var dxe = datasources.UEFIGUIDFirst([]guid.GUID{ffsConsts.GUIDDXEContainer, ffsConsts.GUIDDXE})
@@ -161,6 +195,17 @@ func flows() []struct {
 			tpmsteps.Measure(0, evPostCode, datasources.Bytes{1}),
 			types.StaticStep{tpmactions.NewTPMExtend(0, datasources.Bytes{2}, tpm2.AlgSHA1)},
 		}), true},
+		// measurements with two and three references (image ranges and hard-coded values mixed) behind entries
+		// of the two types whose event data is parsed; no TXT registers
+		{"multi-reference", 0, false, types.NewFlow("c13-flow-g", types.Steps{
+			commonsteps.SetActor(actors.PEI{}),
+			tpmsteps.InitTPM(0, false),
+			tpmsteps.Measure(0, evBlob2, refsSource{imgRef(0xffff0000, 0x40), imgRef(0xffff8000, 0x80)}),
+			tpmsteps.Measure(0, evPostCode, refsSource{{raw: []byte("hard-coded")}, imgRef(0xffff4000, 0x20)}),
+			tpmsteps.Measure(0, evBlob2, refsSource{imgRef(0xffffc000, 0x10), {raw: []byte{1, 2, 3, 4}}, imgRef(0xffffe000, 0x100)}),
+			tpmsteps.Measure(0, evPostCode, refsSource{{raw: []byte{0xaa}}, {raw: []byte{0xbb, 0xcc}}}),
+			tpmsteps.Measure(0, tpmeventlog.EV_SEPARATOR, datasources.Bytes{0, 0, 0, 0}),
+		}), false},
 	}
 }
 
@@ -414,6 +459,112 @@ func pair16(length, offset uint64) []byte {
 	return d
 }
 
+// kinds of (length, offset) pairs in event data
+const (
+	pkEmpty   = 'E' // length 0 at an offset inside the mapped image
+	pkReal    = 'R' // 1..64 bytes inside the image
+	pkSwapped = 'S' // like R, stored offset first
+	pkEmptySw = 'Z' // like E, stored offset first
+	pkAtEnd   = 'X' // ends exactly at the image end
+	pkPastEnd = 'P' // reaches past the image end
+)
+
+func onePair(rng *rand.Rand, isz uint64, kind byte) []byte {
+	base := physBase - isz
+	swap := func(p []byte) []byte { return append(append([]byte{}, p[8:]...), p[:8]...) }
+	switch kind {
+	case pkEmpty:
+		return pair16(0, base+uint64(rng.Intn(int(isz))))
+	case pkEmptySw:
+		return swap(pair16(0, base+uint64(rng.Intn(int(isz)))))
+	case pkAtEnd:
+		l := uint64(1 + rng.Intn(256))
+		return pair16(l, physBase-l)
+	case pkPastEnd:
+		l := uint64(2 + rng.Intn(256))
+		return pair16(l, physBase-1-uint64(rng.Intn(int(l-1))))
+	}
+	l := uint64(1 + rng.Intn(64))
+	p := pair16(l, base+uint64(rng.Intn(int(isz-l))))
+	if kind == pkSwapped {
+		return swap(p)
+	}
+	return p
+}
+
+// event data holding the pairs of [kinds] in this order (the LAST one is at the end of the data), optionally after a description
+func pairListData(rng *rand.Rand, isz uint64, kinds string, descr string) []byte {
+	var d []byte
+	if descr != "" {
+		d = append([]byte{byte(len(descr))}, []byte(descr)...)
+	}
+	for i := 0; i < len(kinds); i++ {
+		d = append(d, onePair(rng, isz, kinds[i])...)
+	}
+	return d
+}
+
+// a random list of 0..max pairs: mostly empty and real ones, in any order
+func randKinds(rng *rand.Rand, max int) string {
+	n := rng.Intn(max + 1)
+	k := make([]byte, n)
+	for i := range k {
+		switch x := rng.Intn(20); {
+		case x < 8:
+			k[i] = pkEmpty
+		case x < 15:
+			k[i] = pkReal
+		case x < 16:
+			k[i] = pkSwapped
+		case x < 17:
+			k[i] = pkEmptySw
+		case x < 19:
+			k[i] = pkAtEnd
+		default:
+			k[i] = pkPastEnd
+		}
+	}
+	return string(k)
+}
+
+// every list of empty / real pairs of length 0..n
+func allKinds(n int) []string {
+	out := []string{""}
+	prev := []string{""}
+	for l := 1; l <= n; l++ {
+		var cur []string
+		for _, p := range prev {
+			cur = append(cur, p+string(pkEmpty), p+string(pkReal))
+		}
+		out = append(out, cur...)
+		prev = cur
+	}
+	return out
+}
+
+// The (length, offset) pairs of event data as the property's input format has them: 16-byte records at the END of
+// the data, last one first, each a length (at most the image size) and an offset inside the image mapped below
+// 4 GiB, in either field order; reading stops at the first record that is neither.
+type dataPair struct{ off, length uint64 }
+
+func tailPairs(data []byte, isz uint64) []dataPair {
+	valid := func(off, l uint64) bool { return l <= isz && off >= physBase-isz && off < physBase }
+	var out []dataPair
+	for len(data) >= 16 {
+		off := binary.LittleEndian.Uint64(data[len(data)-8:])
+		l := binary.LittleEndian.Uint64(data[len(data)-16:])
+		if !valid(off, l) {
+			off, l = l, off
+		}
+		if !valid(off, l) {
+			break
+		}
+		out = append(out, dataPair{off, l})
+		data = data[:len(data)-16]
+	}
+	return out
+}
+
 // event data with (offset,length) pairs: returns the data and a description
 func genEventData(rng *rand.Rand, isz uint64) ([]byte, string) {
 	base := physBase - isz
@@ -425,7 +576,7 @@ func genEventData(rng *rand.Rand, isz uint64) ([]byte, string) {
 	descr := func(s string) []byte {
 		return append([]byte{byte(len(s))}, []byte(s)...)
 	}
-	switch rng.Intn(14) {
+	switch rng.Intn(16) {
 	case 0:
 		return nil, "nil"
 	case 1:
@@ -458,8 +609,16 @@ func genEventData(rng *rand.Rand, isz uint64) ([]byte, string) {
 			return pair16(16, base-1-uint64(rng.Intn(1000))), "offset below the image (not a pair)"
 		}
 		return pair16(isz+1+uint64(rng.Intn(100)), base), "length above the image size (not a pair)"
-	case 11: // zero length
-		return append(pair16(0, base+uint64(rng.Intn(int(isz)))), inRange()...), "zero-length pair + pair"
+	case 11: // a list of pairs, empty ones among them, in any order
+		k := randKinds(rng, 5)
+		d := ""
+		if rng.Intn(3) == 0 {
+			d = "FV_MAIN"
+		}
+		return pairListData(rng, isz, k, d), fmt.Sprintf("pair list %q (E empty, R real, S/Z stored offset first, X ends at the image end, P reaches past it; the last one is read first), description %q", k, d)
+	case 14, 15:
+		k := randKinds(rng, 4)
+		return pairListData(rng, isz, k, ""), fmt.Sprintf("pair list %q", k)
 	case 12: // Fv(GUID) description
 		return append(descr("Fv(4F1C52D3-D824-4D2A-A2F0-EC40C23C5916)"), inRange()...), "Fv(guid) description + pair"
 	default: // random bytes
@@ -907,22 +1066,30 @@ func describeEvents(evs []*tpmeventlog.Event) []string {
 	return r
 }
 
-// does a 16-byte tail pair of the data (as ParseEventData reads them) reach past the image end?
+// does a pair of the data reach past the image end?
 func hasRangePastEnd(data []byte, isz uint64) bool {
-	valid := func(off, l uint64) bool { return l <= isz && off >= physBase-isz && off < physBase }
-	for len(data) >= 16 {
-		off := binary.LittleEndian.Uint64(data[len(data)-8:])
-		l := binary.LittleEndian.Uint64(data[len(data)-16:])
-		if !valid(off, l) {
-			off, l = l, off
-		}
-		if !valid(off, l) {
-			return false
-		}
-		if l > 0 && off-(physBase-isz)+l > isz {
+	for _, p := range tailPairs(data, isz) {
+		if p.length > 0 && p.off-(physBase-isz)+p.length > isz {
 			return true
 		}
-		data = data[:len(data)-16]
+	}
+	return false
+}
+
+// Signature of the known finding C13-D20-rangesToChunks-index: the pairs are read one after the other (the last
+// one of the data first) and each one looks up the reference "number of chunks made so far" of the paired
+// measurement; a pair makes a chunk when it is not empty, or when the reference it looked up is a hard-coded
+// value.  The defect shows when a pair is read after as many chunk-making pairs as the measurement has
+// references - and only then: pairs that make no chunk do not count, whatever their number.
+func d20Trigger(pairs []dataPair, refs types.References) bool {
+	made := 0
+	for _, p := range pairs {
+		if made >= len(refs) {
+			return true
+		}
+		if _, hard := refs[made].Artifact.(types.RawBytes); p.length > 0 || hard {
+			made++
+		}
 	}
 	return false
 }
@@ -1086,40 +1253,74 @@ func doCase(c *gal.Ctx, kind string, g *genCtx, nilLog bool) {
 	}
 	switch o.Outcome {
 	case "panic":
-		// classify: the three known panic classes need their trigger to be present in the input
-		var hasTwoPairs, hasPastEnd bool
-		for _, e := range exp {
-			if hasParser(e.Type) && len(e.Data) >= 32 {
-				hasTwoPairs = true
-			}
-			if hasParser(e.Type) && hasRangePastEnd(e.Data, b.isz) {
-				hasPastEnd = true
-			}
-		}
-		hasNilMeas := false
-		for k, ci := range b.tp.CommandLog {
-			_ = k
-			if la, ok := ci.Command.(*tpm.CommandEventLogAdd); ok && la.PCRIndex == 0 && la.HashAlgo == g.alg {
-				// a log entry whose step has no Extend: no measurement
-				stepHasExtend := false
-				for k2, c2 := range b.tp.CommandLog {
-					if ex, ok := c2.Command.(*tpm.CommandExtend); ok && ex.PCRIndex == 0 && ex.HashAlgo == g.alg &&
-						c2.CauseCoordinates.Flow.Name == ci.CauseCoordinates.Flow.Name && c2.CauseCoordinates.StepIndex == ci.CauseCoordinates.StepIndex {
-						_ = k2
-						stepHasExtend = true
+		// A panic always fails the property.  A known finding silences exactly its own signature: the panic message
+		// of that defect AND its trigger on an entry that reaches the place (who is paired with whom: the disable
+		// bitmaps of the alignment; without them every pairing is considered).
+		var d20, nilMeas, pastEnd bool
+		d20Len := -1
+		judge := func(e *tpmeventlog.Event, sim int) {
+			// sim < 0: the entry is left unpaired (unexpected): analysed without a measurement
+			mi := -1
+			if sim >= 0 {
+				if bytes.Equal(e.Digest.Digest, b.tp.EventLog[sim].Digest) {
+					return // a plain match: nothing is analysed
+				}
+				mi = b.measurementOfEvent(sim)
+				if b.regs && mi < 0 {
+					nilMeas = true // registers present, differing digest, simulated event without a measurement
+					return
+				}
+				if b.regs && mi >= 0 {
+					if _, ok := b.proc.CurrentState.MeasuredData[mi].Step.(intelsteps.MeasurePCR0DATA); ok {
+						return // a PCR0_DATA entry is repaired (or not), its event data is not looked at
 					}
 				}
-				if !stepHasExtend {
-					hasNilMeas = true
+			}
+			if !hasParser(e.Type) {
+				return
+			}
+			if hasRangePastEnd(e.Data, b.isz) {
+				pastEnd = true
+			}
+			if mi >= 0 {
+				refs := b.proc.CurrentState.MeasuredData[mi].References
+				if d20Trigger(tailPairs(e.Data, b.isz), refs) {
+					d20 = true
+					d20Len = len(refs)
+				}
+			}
+		}
+		if haveBitmaps {
+			i, j := 0, 0
+			for i < len(exp) || j < len(sims) {
+				switch {
+				case j < len(sims) && dc[j]:
+					j++
+				case i < len(exp) && de[i]:
+					judge(exp[i], -1)
+					i++
+				case i < len(exp) && j < len(sims):
+					judge(exp[i], sims[j])
+					i++
+					j++
+				default: // unbalanced bitmaps: cannot be attributed
+					i, j = len(exp), len(sims)
+				}
+			}
+		} else {
+			for _, e := range exp {
+				judge(e, -1)
+				for _, sj := range sims {
+					judge(e, sj)
 				}
 			}
 		}
 		switch {
-		case strings.Contains(o.Msg, "index out of range") && hasTwoPairs:
+		case d20 && strings.Contains(o.Msg, fmt.Sprintf("index out of range [%d] with length %d", d20Len, d20Len)):
 			c.OracleFailKnown(idx, findD20, "ReproduceEventLog panics: "+o.Msg, "analyze_unexpected_log_entry.go:rangesToChunks", descr)
-		case strings.Contains(o.Msg, "nil pointer dereference") && hasNilMeas && b.regs:
+		case nilMeas && strings.Contains(o.Msg, "nil pointer dereference"):
 			c.OracleFailKnown(idx, findNilM, "ReproduceEventLog panics: "+o.Msg, "reproduce_event_log.go:getACMPolicyStatusRefFromMeasurement (m == nil)", descr)
-		case strings.Contains(o.Msg, "artifact *biosimage.BIOSImage, range") && hasPastEnd:
+		case pastEnd && strings.Contains(o.Msg, "artifact *biosimage.BIOSImage, range"):
 			c.OracleFailKnown(idx, findRange, "ReproduceEventLog panics: "+o.Msg, "analyze_unexpected_log_entry.go:tryMeasurement -> types.Reference.RawBytes", descr)
 		default:
 			fail("ReproduceEventLog panics: " + o.Msg)
